@@ -72,5 +72,6 @@ OverOK == (last.kind = "over" /\ st.pause = "Tripwire") => (st.icount > last.pre
 OutOK == /\ (last.kind = "out" /\ last.pre.fno = 0) => Fin(st) = Fin(last.pre)
          /\ (last.kind = "out" /\ last.pre.fno > 0 /\ st.pause = "Tripwire") => st.fno < last.pre.fno
 \* a breakpoint is only reported after an executed step
-BpAfterStep == st.pause = "Breakpoint" => st.icount > last.pre.icount
+\* (a step_out at depth 0 returns at once and leaves the status of the call before it)
+BpAfterStep == (st.pause = "Breakpoint" /\ ~(last.kind = "out" /\ last.pre.fno = 0)) => st.icount > last.pre.icount
 =============================================================================
